@@ -1,6 +1,7 @@
 import Desert.Lemmas.BitsBV
 import Desert.Lemmas.VarInt
 import Desert.Lemmas.BitsTie
+import Desert.Lemmas.ReadTie
 import Std.Tactic.BVDecide
 /-!
 # C11 — variable-length integers: total bijection with minimal length
@@ -8,7 +9,8 @@ import Std.Tactic.BVDecide
 Theorems about the bit-exact transcription (`Desert/Bits.lean`), for all 2^32 values at once, and
 about the Nat-level ladder that the codec layer uses (`Desert/Num.lean`). The two layers are tied by
 theorems, not only by the run: `layers_agree_u32` / `layers_agree_i32` — the shift-and-mask writers
-produce, byte for byte, what the arithmetic ladder produces, for all 2^32 values. The bit-level
+produce, byte for byte, what the arithmetic ladder produces, for all 2^32 values — and
+`layers_agree_read`: the two readers agree on every byte string. The bit-level
 theorems use `bv_decide` (axioms `*._native.bv_decide.ax_*`, listed by the audit).
 -/
 
@@ -138,5 +140,16 @@ theorem layers_agree_u32 (x : BitVec 32) : (Bits.writeVarU32 x).map (·.toNat) =
 /-- the same for `i32`: bit-level zig-zag and var-int = arithmetic zig-zag and ladder on the signed value -/
 theorem layers_agree_i32 (x : BitVec 32) : (Bits.writeVarI32 x).map (·.toNat) = (zz x.toInt).map (·.toNat) :=
   writeVarI32_eq_zz x
+
+/-- the bit-level reader and the operation-tree reader of the codec model agree on **every** byte
+string: same value, same end-of-input error, same number of bytes consumed -/
+theorem layers_agree_read (bs : List (BitVec 8)) (s : AbsSrc) (hw : s.WF) (hv : s.view = toBytes bs) :
+    runAbs readVarU32 s = match Bits.readVarU32 bs with
+      | none => .err .inputEnded
+      | some (x, rest) => .ok (x.toNat, s.after (bs.length - rest.length) s.strs) := by
+  rw [run_readVarU32_list s hw, hv, ← readers_agree bs]
+  cases Bits.readVarU32 bs with
+  | none => rfl
+  | some p => simp [toBytes]
 
 end C11
